@@ -9,6 +9,7 @@ V="$(cd "$(dirname "$0")/.." && pwd)"
 OUT="$V/seeded/$DEST"; mkdir -p "$OUT"
 cd "$WT" || exit 2
 git checkout -q -- . 
+git checkout -q --detach "$(git -C /repo rev-parse HEAD)"
 cp "seed$K.diff" "$OUT/patch.diff"; cp "seed${K}_demo.py" "$OUT/demo.py"
 echo "== demo on clean tree"; /venv/bin/python -W ignore "seed${K}_demo.py" > "$OUT/demo_clean.log" 2>&1; DC=$?; echo "rc=$DC"
 git apply "seed$K.diff" || { echo "PATCH DOES NOT APPLY"; exit 2; }
